@@ -3,8 +3,7 @@ import VrlProofs.Lemmas.TypeState
 /-! Effect-free expressions (`Lang.effectFree`): evaluating one changes nothing `Conforms` looks at,
     whatever the outcome (in particular when it fails half-way); and its `type_info` leaves a
     conforming state conforming. Used for the operand of `??` / `ok, err =` (whose failure is
-    handled, after which the program continues in the state the failed operand left) and for the
-    right operand of `/` (whose state changes `Op::type_info` never applies). -/
+    handled, after which the program continues in the state the failed operand left) -/
 
 namespace Lang
 
@@ -174,8 +173,8 @@ end
 
 /-- the state `Op::type_info` reports conforms when both candidate states do -/
 theorem opState_conforms {s : St} (o : Opcode) (l : TypeDef) (lv : Option Value) (T1 : TState)
-    (r : TypeDef) (Tr : TState) (ef : Bool)
-    (hchk : AllNan (opChecks o l lv T1 r Tr ef)) (h1 : Conforms s T1) (hr : Conforms s Tr) :
+    (r : TypeDef) (Tr : TState)
+    (hchk : AllNan (opChecks o l lv T1 r Tr)) (h1 : Conforms s T1) (hr : Conforms s Tr) :
     Conforms s (opState o l lv T1 Tr) := by
   cases o
   case err =>
@@ -201,7 +200,6 @@ theorem opState_conforms {s : St} (o : Opcode) (l : TypeDef) (lv : Option Value)
         simp only [opChecks, c1, c2] at hchk
         simp only [Bool.false_eq_true, if_false, allNan_append] at hchk
         exact Conforms.merge_left (mergeOk_of_checks hchk.2) h1
-  case div => exact h1
   all_goals exact hr
 
 mutual
@@ -240,7 +238,7 @@ mutual
       have c1 := effectFree_conforms l h.1 T hk1 hc
       have c2 := effectFree_conforms r h.2 _ hk2 c1
       rw [typeInfo]
-      exact opState_conforms o _ _ _ _ _ _ hk3 c1 c2
+      exact opState_conforms o _ _ _ _ _ hk3 c1 c2
     | .blk _, h, _, _, _ => by simp [effectFree] at h
     | .ifte _ _ _ _, h, _, _, _ => by simp [effectFree] at h
     | .asg _ _, h, _, _, _ => by simp [effectFree] at h
